@@ -91,16 +91,20 @@ class UpdateHarness(Harness):
     max_states = 400000
     seed = 0
 
-    def __init__(self, name, procs, scheme="L/Y/YX", default_format="npy", fmt=None):
+    def __init__(self, name, procs, scheme="L/Y/YX", default_format="npy", fmt=None, main_updates=None):
         self.name = name
+        self.main_updates = main_updates  # updates the top-level process makes itself, alongside its children
         self.procs = procs
         self.scheme = scheme
         self.default_format = default_format
         self.fmt = fmt
         self._serial = None
 
+    def _all(self):
+        return list(self.procs) + ([self.main_updates] if self.main_updates else [])
+
     def describe(self):
-        return {"name": self.name, "procs": self.procs, "scheme": self.scheme, "default_format": self.default_format, "fmt": self.fmt}
+        return {"name": self.name, "procs": self.procs, "scheme": self.scheme, "default_format": self.default_format, "fmt": self.fmt, "main_updates": self.main_updates}
 
     def fresh(self):
         from toasty.pyramid import PyramidIO
@@ -110,12 +114,16 @@ class UpdateHarness(Harness):
         procs = self.procs
         fmt = self.fmt
 
+        mine = self.main_updates
+
         def main():
             ws = []
             for ups in procs:
                 w = multiprocessing.Process(target=updater, args=(pio, ups, fmt))
                 w.start()
                 ws.append(w)
+            if mine:
+                updater(pio, mine, fmt)
             for w in ws:
                 w.join()
             return [w.exitcode for w in ws]
@@ -135,10 +143,10 @@ class UpdateHarness(Harness):
             viol.append(("updater-failed", "outcome %r; failures %r" % (main.outcome, bad[:2])))
             return viol, ("failed",)
         if self._serial is None:
-            self._serial = serial_results(self.procs)
+            self._serial = serial_results(self._all())
         pio = PyramidIO(sched.root, scheme=self.scheme, default_format=self.default_format)
         tiles = {}
-        positions = sorted(set(tuple(u[0]) for ups in self.procs for u in ups))
+        positions = sorted(set(tuple(u[0]) for ups in self._all() for u in ups))
         for pos in positions:
             img = pio.read_image(Pos(*pos), format=self.fmt or self.default_format)
             tiles[pos] = None if img is None else img.asarray()
@@ -158,7 +166,7 @@ class UpdateHarness(Harness):
         if not match:
             # which contributions are missing?
             missing = []
-            for ups in self.procs:
+            for ups in self._all():
                 for pos, (y0, y1, x0, x1), value in ups:
                     if value is None:
                         continue
@@ -207,6 +215,9 @@ def configs(tier):
         UpdateHarness("3-one-tile", [[(T0, R["left"], 1.0)], [(T0, R["right"], 2.0)], [(T0, R["top"], 3.0)]]),
         UpdateHarness("2x2-sequential", [[(T0, R["left"], 1.0), (T0, R["px"], 5.0)], [(T0, R["right"], 2.0), (T0, R["mid"], 6.0)]]),
     ]
+    # the top-level process updates the tile itself while its children do (every updater, whatever its role, must
+    # use one lock discipline)
+    cfgs.append(UpdateHarness("parent-and-children", [[(T0, R["left"], 1.0)], [(T0, R["right"], 2.0)]], main_updates=[(T0, R["top"], 3.0)]))
     # deeper tiles whose position digits run together to the same string ("4112"): an updater that touched
     # the partner tile earlier and one that did not must still exclude each other on the shared tile
     TA, TB = (4, 1, 12), (4, 11, 2)
@@ -267,6 +278,87 @@ def real_process_binding(part, nproc=4, n=20):
             part.violation("real-processes/lock-files-remain", repr(locks))
 
 
+_LOCKID_CHILD = r"""
+import json, os, sys, tempfile
+sys.path.insert(0, %(verif)r)
+from vt import build
+build.activate_repo()
+import filelock
+used = []
+
+class Rec(object):
+    def __init__(self, lock_file, *a, **k):
+        self.lock_file = str(lock_file)
+    def acquire(self, *a, **k):
+        used.append(self.lock_file)
+        return self
+    def release(self, *a, **k):
+        pass
+    def __enter__(self):
+        return self.acquire()
+    def __exit__(self, *e):
+        return False
+
+filelock.SoftFileLock = Rec
+filelock.FileLock = Rec
+import numpy as np
+from toasty.image import Image, ImageMode
+from toasty.pyramid import PyramidIO, Pos
+root = tempfile.mkdtemp(prefix="verif-lockid-", dir=%(scratch)r)
+out = {}
+for scheme in ("L/Y/YX", "LXY"):
+    pio = PyramidIO(os.path.join(root, scheme.replace("/", "")), scheme=scheme, default_format="npy")
+    for pos in ((0, 0, 0), (2, 1, 3), (4, 11, 2), (4, 1, 12)):
+        del used[:]
+        with pio.update_image(Pos(*pos), masked_mode=ImageMode.F32, default="masked") as img:
+            pass
+        out["%%s %%r" %% (scheme, pos)] = [os.path.relpath(u, root) for u in used]
+import shutil
+shutil.rmtree(root, ignore_errors=True)
+print("VERIF-LOCKID " + json.dumps(out, sort_keys=True))
+"""
+
+
+def lock_identity(part):
+    """Updaters of one tile need not be relatives: two independently started interpreters (different string-hash
+    salts, different pids) must arrive at the same lock for the same tile, and at different locks for different
+    tiles.  Each child runs one update per tile with the lock classes replaced by a recorder."""
+    import json
+    import subprocess
+    import sys
+
+    from vt.fixtures import scratch_root
+
+    verif = os.path.dirname(os.path.dirname(os.path.abspath(__file__)))
+    code = _LOCKID_CHILD % {"verif": verif, "scratch": scratch_root()}
+    seen = {}
+    for hs in ("1", "2", "31337"):
+        env = dict(os.environ)
+        env["PYTHONHASHSEED"] = hs
+        p = subprocess.run([sys.executable, "-W", "ignore", "-c", code], cwd=verif, env=env, stdout=subprocess.PIPE, stderr=subprocess.PIPE, text=True, timeout=600)
+        line = [l for l in p.stdout.splitlines() if l.startswith("VERIF-LOCKID ")]
+        part.case(nontrivial=True)
+        if p.returncode != 0 or not line:
+            part.notes.append("lock-identity child (PYTHONHASHSEED=%s) failed: %s" % (hs, (p.stderr or p.stdout)[-400:]))
+            part.counters["driver_crashes"] = part.counters.get("driver_crashes", 0) + 1
+            return
+        seen[hs] = json.loads(line[-1][len("VERIF-LOCKID "):])
+    ref = seen["1"]
+    cfg = {"lock_identity": True}
+    for hs, d in seen.items():
+        if d != ref:
+            diff = [k for k in ref if d.get(k) != ref[k]]
+            part.violation("lock-identity/differs-between-interpreters", "%r: an interpreter started with PYTHONHASHSEED=%s locks %r for tile %s, one started with PYTHONHASHSEED=1 locks %r" % (cfg, hs, d.get(diff[0]), diff[0], ref[diff[0]]), cfg)
+            return
+    for scheme in ("L/Y/YX", "LXY"):
+        ks = [k for k in ref if k.startswith(scheme + " ")]
+        locks = [tuple(ref[k]) for k in ks]
+        if any(len(l) != 1 for l in locks):
+            part.violation("lock-identity/not-exactly-one-lock-per-update", "%r: locks taken per update: %r" % (cfg, dict((k, ref[k]) for k in ks)), cfg)
+        elif len(set(locks)) != len(locks):
+            part.violation("lock-identity/tiles-share-a-lock-file", "%r: different tiles map to one lock file: %r" % (cfg, dict((k, ref[k]) for k in ks)), cfg)
+
+
 def run(tier, seed):
     rep = Report(PROP, tier, seed, "model_checking")
     rep.rule = (
@@ -282,6 +374,7 @@ def run(tier, seed):
         c.seed = seed
     par.pmap(_work, cfgs, rep)
     real_process_binding(rep, nproc=4, n=10 if tier == "quick" else 40)
+    lock_identity(rep)
     stages.finish_model_report(rep)
     return rep.finish()
 
@@ -291,9 +384,20 @@ stages.HARNESSES["UpdateHarness"] = UpdateHarness
 
 def replay(payload):
     r = payload["replay"]
+    if r.get("lock_identity"):
+        from vt.harness import Part
+
+        p = Part()
+        lock_identity(p)
+        for sig in p.violations:
+            print("REPLAY-FAIL", sig)
+        return 1 if p.violations else 0
     c = r["config"]
     procs = [[(tuple(u[0]), tuple(u[1]), u[2]) for u in ups] for ups in c["procs"]]
-    cfg = UpdateHarness(c["name"], procs, c["scheme"], c["default_format"], c["fmt"])
+    mu = c.get("main_updates")
+    if mu:
+        mu = [(tuple(u[0]), tuple(u[1]), u[2]) for u in mu]
+    cfg = UpdateHarness(c["name"], procs, c["scheme"], c["default_format"], c["fmt"], main_updates=mu)
     ex = run_labels(cfg, r["schedule"])
     try:
         viol = ex.step_violations()
